@@ -49,6 +49,9 @@ type seqCase struct {
 	// NoListener (socket layer, SetAddress over connected UDP): nothing listens at the controller's address - the host answers
 	// with ICMP port unreachable. SetAddress 'succeeds once the request is sent'; it is called three times in a row.
 	NoListener bool `json:"no_listener,omitempty"`
+	// HoldsOpen (socket layer, SetAddress over TCP): the controller - which owes no reply - keeps the connection open for 80 % of
+	// the timeout whatever the client does with its end; SetAddress 'succeeds once the request is sent'
+	HoldsOpen bool `json:"peer_holds_connection,omitempty"`
 }
 
 var classNames = []string{"valid", "short", "long", "other-serial", "serial-0", "wrong-code", "wrong-id", "id-0x19", "malformed", "malformed-strict", "two-faults", "foreign"}
@@ -303,6 +306,9 @@ func runSocket(c seqCase, scale int) *rp.Fail {
 			if len(a) > 3 {
 				a = a[:3]
 			}
+			if c.HoldsOpen {
+				a = append(a, farm.Action{Hold: time.Duration(timeout) * time.Millisecond * 8 / 10})
+			}
 			return a
 		}))
 		if err == nil {
@@ -338,6 +344,9 @@ func runSocket(c seqCase, scale int) *rp.Fail {
 			time.Sleep(2 * time.Millisecond)
 		}
 		return nil
+	}
+	if c.HoldsOpen {
+		ev.Class("socket/set-address-to-a-tcp-peer-that-holds-the-connection", 1)
 	}
 	u := hook.Real(cfgFor(c, ip, port, timeout))
 	if len(c.Prev) == 64 && c.Path != 2 {
@@ -595,6 +604,9 @@ func genSeq(layer string, maxLen int) func(t *rapid.T) seqCase {
 			if layer == "socket" && c.Path == 1 {
 				c.NoListener = rapid.IntRange(0, 2).Draw(t, "no.listener") == 0
 			}
+			if layer == "socket" && c.Path == 2 {
+				c.HoldsOpen = rapid.Bool().Draw(t, "holds.open")
+			}
 			return c
 		}
 		for i := 0; i < n; i++ {
@@ -714,6 +726,20 @@ func TestExhaustiveSequences(t *testing.T) {
 // buffers (1024, 2048, 4096, 8192, the largest UDP payload): ignored on the broadcast path, fatal on the directed one
 func sweepOversize(yield func(seqCase) bool) {
 	i := 0
+	// SetAddress over TCP to a controller that keeps the connection open, with 0..2 datagrams sent on it first (every shard)
+	for n := 0; n <= 2; n++ {
+		for _, fixed := range []bool{false, true} {
+			c := seqCase{Layer: "socket", Path: 2, Call: spec.Call{Op: "SetAddress", Serial: 405419896}, HoldsOpen: true, FixedPort: fixed}
+			for k := 0; k < n; k++ {
+				d := make([]byte, 64)
+				spec.Header(d, 0x17, 0x96, c.Call.Serial)
+				c.Datagrams = append(c.Datagrams, d)
+			}
+			if (ev.Thorough() || (n == 1) != fixed) && !yield(c) {
+				return
+			}
+		}
+	}
 	for _, path := range []int{1, 0} {
 		for _, n := range []int{65, 1024, 1025, 2048, 2049, 3000, 4096, 4097, 8192, 8193, 9000, 65000} {
 			for _, op := range []string{"GetTime", "GetStatus", "GetCardByID"} {
